@@ -24,6 +24,8 @@ pub enum H {
     RawB(*const B),
     Dyn(Arc<dyn Probe>),
     RawDyn(*const dyn Probe),
+    UnqDyn(UniqueArc<dyn Probe>),
+    BorDyn(ArcBorrow<'static, dyn Probe>),
     BorA(ArcBorrow<'static, A>),
     BorB(ArcBorrow<'static, B>),
     TArcA(*const Arc<A>),
@@ -243,6 +245,20 @@ pub fn observe(h: &H) -> Obs {
                     notes: vec![],
                 }
             }
+            H::UnqDyn(u) => {
+                let r: &dyn Probe = &**u;
+                let data = r as *const dyn Probe as *const u8 as usize;
+                let off = Layout::new::<usize>().extend(Layout::for_value::<dyn Probe>(r)).unwrap().1;
+                Obs { kind: "UnqDyn", counts: vec![], seen: r.psee(), heap: 0, heap_calc: data - off, datas: vec![("deref", data)], notes: vec![] }
+            }
+            H::BorDyn(b) => {
+                // ArcBorrow<dyn Trait> offers no accessor: it is a transparent NonNull<dyn Trait>
+                let p: *const dyn Probe = std::mem::transmute_copy(b);
+                let r: &dyn Probe = &*p;
+                let data = p as *const u8 as usize;
+                let off = Layout::new::<usize>().extend(Layout::for_value::<dyn Probe>(r)).unwrap().1;
+                Obs { kind: "BorDyn", counts: vec![], seen: r.psee(), heap: 0, heap_calc: data - off, datas: vec![("raw", data)], notes: vec![] }
+            }
             H::RawDyn(p) => {
                 let r: &dyn Probe = &**p;
                 let data = *p as *const u8 as usize;
@@ -384,6 +400,9 @@ impl Ctx {
         match r {
             Ok(v) => Some(v),
             Err(p) => {
+                if let Some(b) = p.downcast_ref::<crate::payload::HarnessBug>() {
+                    self.errors.push(format!("[harness] {}", b.0));
+                }
                 self.last.panicked = true;
                 self.panics_caught.push(p);
                 None
@@ -413,7 +432,7 @@ impl Ctx {
             self.final_check();
             // borrows cannot outlive what they borrow from: release them first
             for s in 0..self.slots.len() {
-                if matches!(self.slots[s], Some(H::BorA(_)) | Some(H::BorB(_))) {
+                if matches!(self.slots[s], Some(H::BorA(_)) | Some(H::BorB(_)) | Some(H::BorDyn(_))) {
                     self.slots[s] = None;
                 }
             }
@@ -513,9 +532,14 @@ impl Ctx {
                     "unique" => H::UnqA(UniqueArc::new(A::mk(v))),
                     "uniqueB" => H::UnqB(UniqueArc::new(B::mk(v))),
                     "from" => H::ArcA(Arc::from(A::mk(v))),
+                    "default" => {
+                        let mut a: Arc<A> = Arc::default();
+                        Arc::get_mut(&mut a).unwrap().set_val(v);
+                        H::ArcA(a)
+                    }
                     "box" => H::ArcA(Arc::from(Box::new(A::mk(v)))),
                     "boxB" => H::ArcB(Arc::from(Box::new(B::mk(v)))),
-                    _ => panic!("unknown constructor"),
+                    _ => crate::payload::harness_bug("unknown constructor"),
                 });
                 if let Some(h) = h {
                     self.put(d, h);
@@ -538,7 +562,7 @@ impl Ctx {
                                 H::TArcB(p) => H::ArcB((**p).clone()),
                                 H::TOffA(p) => H::OffA((**p).clone()),
                                 H::TOffB(p) => H::OffB((**p).clone()),
-                                _ => panic!("[harness] harness: Clone on wrong kind"),
+                                _ => crate::payload::harness_bug("Clone on wrong kind"),
                             }
                         })
                     }
@@ -560,7 +584,7 @@ impl Ctx {
                                 H::TOffB(p) => H::ArcB((**p).clone_arc()),
                                 H::BorA(b) => H::ArcA(b.clone_arc()),
                                 H::BorB(b) => H::ArcB(b.clone_arc()),
-                                _ => panic!("[harness] harness: CloneArc on wrong kind"),
+                                _ => crate::payload::harness_bug("CloneArc on wrong kind"),
                             }
                         })
                     }
@@ -574,7 +598,7 @@ impl Ctx {
                 if let Some(h) = self.take(s) {
                     self.call(move || match h {
                         H::RawA(_) | H::RawB(_) | H::RawDyn(_) | H::TArcA(_) | H::TArcB(_) | H::TOffA(_) | H::TOffB(_) => {
-                            panic!("[harness] harness: Drop on wrong kind")
+                            crate::payload::harness_bug("Drop on wrong kind")
                         }
                         other => drop(other),
                     });
@@ -586,7 +610,7 @@ impl Ctx {
                 }
             }
             "IntoRaw" | "IntoPtr" | "FromRaw" | "FromPtr" | "IntoOff" | "FromOff" | "FromFirst" | "FromSecond"
-            | "Shareable" | "Unsize" | "IntoRawDyn" | "FromRawDyn" | "CastDyn" => {
+            | "Shareable" | "Unsize" | "IntoRawDyn" | "FromRawDyn" | "CastDyn" | "UnsizeUnq" | "ShareableDyn" | "UnsizeBor" => {
                 if let Some(h) = self.take(s) {
                     let name = op.name.clone();
                     let n = self.call(move || unsafe {
@@ -611,11 +635,16 @@ impl Ctx {
                             ("Unsize", H::ArcB(a)) => H::Dyn(a.unsize(Coercion!(to dyn Probe))),
                             ("IntoRawDyn", H::Dyn(a)) => H::RawDyn(Arc::into_raw(a)),
                             ("FromRawDyn", H::RawDyn(p)) => H::Dyn(Arc::from_raw(p)),
+                            ("UnsizeUnq", H::UnqA(u)) => H::UnqDyn(u.unsize(Coercion!(to dyn Probe))),
+                            ("UnsizeUnq", H::UnqB(u)) => H::UnqDyn(u.unsize(Coercion!(to dyn Probe))),
+                            ("ShareableDyn", H::UnqDyn(u)) => H::Dyn(u.shareable()),
+                            ("UnsizeBor", H::BorA(b)) => H::BorDyn(b.unsize(Coercion!(to dyn Probe))),
+                            ("UnsizeBor", H::BorB(b)) => H::BorDyn(b.unsize(Coercion!(to dyn Probe))),
                             ("CastDyn", H::RawA(p)) => H::RawDyn(p as *const dyn Probe),
                             ("CastDyn", H::RawB(p)) => H::RawDyn(p as *const dyn Probe),
                             (n, h) => {
                                 std::mem::forget(h);
-                                panic!("[harness] harness: {} on wrong kind", n)
+                                crate::payload::harness_bug(&format!("{} on wrong kind", n))
                             }
                         }
                     });
@@ -647,7 +676,7 @@ impl Ctx {
                                     ArcUnionBorrow::First(b) => H::BorA(stat(b)),
                                     ArcUnionBorrow::Second(b) => H::BorB(stat(b)),
                                 },
-                                _ => panic!("[harness] harness: Borrow on wrong kind"),
+                                _ => crate::payload::harness_bug("Borrow on wrong kind"),
                             }
                         })
                     }
@@ -680,7 +709,7 @@ impl Ctx {
                                 H::Dyn(a) => a.is_unique(),
                                 H::TArcA(p) => (**p).is_unique(),
                                 H::TArcB(p) => (**p).is_unique(),
-                                _ => panic!("[harness] harness: IsUnique on wrong kind"),
+                                _ => crate::payload::harness_bug("IsUnique on wrong kind"),
                             }
                         })
                     }
@@ -704,7 +733,7 @@ impl Ctx {
                         H::ArcB(a) => go(&api, a),
                         h => {
                             std::mem::forget(h);
-                            panic!("[harness] harness: TryUnique on wrong kind")
+                            crate::payload::harness_bug("TryUnique on wrong kind")
                         }
                     });
                     if let Some((n, v)) = r {
@@ -755,7 +784,7 @@ impl Ctx {
                                     }
                                     None => (false, 0),
                                 },
-                                _ => panic!("[harness] harness: GetMut on wrong kind"),
+                                _ => crate::payload::harness_bug("GetMut on wrong kind"),
                             }
                         })
                     }
@@ -772,11 +801,24 @@ impl Ctx {
                     Some(h) => {
                         let hp: *mut H = h;
                         self.call(|| unsafe {
-                            typed!(&mut *hp; UnqA | UnqB (u) => {
-                                let seen = (**u).see().val;
-                                (**u).set_val(v);
-                                seen
-                            }; _ => panic!("[harness] harness: UqWrite on wrong kind"))
+                            match &mut *hp {
+                                H::UnqA(u) => {
+                                    let seen = (**u).see().val;
+                                    (**u).set_val(v);
+                                    seen
+                                }
+                                H::UnqB(u) => {
+                                    let seen = (**u).see().val;
+                                    (**u).set_val(v);
+                                    seen
+                                }
+                                H::UnqDyn(u) => {
+                                    let seen = (**u).psee().val;
+                                    (**u).pset(v);
+                                    seen
+                                }
+                                _ => crate::payload::harness_bug("UqWrite on wrong kind"),
+                            }
                         })
                     }
                     None => None,
@@ -825,7 +867,7 @@ impl Ctx {
                                     r.set_val(v);
                                     seen
                                 }
-                                _ => panic!("[harness] harness: MakeMut on wrong kind"),
+                                _ => crate::payload::harness_bug("MakeMut on wrong kind"),
                             }
                         })
                     }
@@ -862,7 +904,7 @@ impl Ctx {
                         H::ArcB(a) => R::B(go(a)),
                         h => {
                             std::mem::forget(h);
-                            panic!("[harness] harness: TryUnwrap on wrong kind")
+                            crate::payload::harness_bug("TryUnwrap on wrong kind")
                         }
                     });
                     match r {
@@ -891,7 +933,7 @@ impl Ctx {
                         H::UnqB(u) => Out::B(UniqueArc::into_inner(u)),
                         h => {
                             std::mem::forget(h);
-                            panic!("[harness] harness: IntoInner on wrong kind")
+                            crate::payload::harness_bug("IntoInner on wrong kind")
                         }
                     });
                     if let Some(o) = r {
@@ -915,7 +957,7 @@ impl Ctx {
                         H::ArcB(a) => Out::B(Arc::unwrap_or_clone(a)),
                         h => {
                             std::mem::forget(h);
-                            panic!("[harness] harness: UnwrapOrClone on wrong kind")
+                            crate::payload::harness_bug("UnwrapOrClone on wrong kind")
                         }
                     });
                     CLONE_PANIC.store(false, Ordering::SeqCst);
